@@ -441,7 +441,7 @@ struct RealFx {
 
 impl RealFx {
     fn new(tag: &str) -> RealFx {
-        let dir = PathBuf::from(format!("/verif/scratch/c13-{}-{tag}", std::process::id()));
+        let dir = PathBuf::from(format!("{}/scratch/c13-{}-{tag}", crate::report::root(), std::process::id()));
         let _ = std::fs::remove_dir_all(&dir);
         std::fs::create_dir_all(&dir).unwrap();
         RealFx { dir }
